@@ -53,11 +53,11 @@ static void h_run_va_case (const h_case_t *c) {
   h_map (H_STACK_BASE, 8 * H_STACK_WORDS, h_stack);
   h_map (LIFT_SYM_buf, sizeof (h_buf), h_buf);
   h_enter (&s);
-  for (unsigned i = H_STACK_BELOW + 1; i < H_STACK_WORDS; i++) h_stack[i] = nd ();
+  for (unsigned i = 1; i < 1 + locs.stack_bytes / 8 + 4; i++) h_stack[H_STACK_BELOW + i] = nd (); /* memory arguments + four words */
   for (unsigned i = 0; i < c->nargs; i++) {
     const sc_loc_t *l = &locs.arg[i];
     if (c->args[i].type == SC_LD) {
-      h_arg_ld[i] = h_ld_of_bits (nd (), nd ());
+      h_arg_ld[i] = h_ld_nd ();
       x86_ld_store (first + l->stack_off, h_arg_ld[i]);
     } else
       h_arg_raw[i] = l->cls[0] == SC_CL_MEM ? X86_M64 (first + l->stack_off) : l->cls[0] == SC_CL_INT ? s.r[sc_int_arg_reg[l->reg[0]]] : s.xmm[l->reg[0]][0];
